@@ -12,14 +12,20 @@ package main
 // records for every request whether the connection was refused, the response completed, or it was cut, and when; and the
 // exit time and status of the process (a process that was killed by a signal has status -<signal number>).
 //
-//	<prefix>.in     shutdown <nn> <W> <G> | <arrivals ns> | <service ns> | <signal instants ns> | <signal numbers>
-//	                (planned times, relative to the first signal; the signal lists start with the first signal at 0)
-//	<prefix>.impl   <exit_ns> <exit_code> | <accepted 0/1>... | <completed 0/1>... | <end_ns>...
+//	<prefix>.in     shutdown <nn> <W> <G> | <arrivals ns> | <service ns> | <signal instants ns> | <signal numbers> | <sync 0/1>
+//	                (planned times, relative to the first signal; the signal lists start with the first signal at 0;
+//	                sync = 1: the upstream answers that request at <process's own close instant> + (arrival + service - W),
+//	                the close instant being read from the time stamp of the process's "starting graceful shutdown" log line)
+//	<prefix>.impl   <exit_ns> <exit_code> | <accepted 0/1>... | <completed 0/1>... | <end_ns>... | <start_ns>... | <signal sent ns>...
+//	                (start / signal sent: the instants at which the DRIVER actually issued the request / sent the signal,
+//	                relative to the planned signal instant: lib/props/c19.py sets a scenario aside when the driver itself
+//	                missed its schedule by more than 100 ms)
 //
 // The comparison with Model/Shutdown.v is done in lib/props/c19.py (flags exact, times within the stated tolerance).
 
 import (
 	"bytes"
+	"encoding/json"
 	"errors"
 	"flag"
 	"fmt"
@@ -55,7 +61,10 @@ type sdScenario struct {
 	reqs  []sdReq
 	first syscall.Signal // the signal that starts the shutdown (0 = SIGTERM)
 	sigs  []sdSig        // further signals, in order of their instants
+	sync  []bool         // per request (may be shorter than reqs): completion synchronised to the process's close instant
 }
+
+func (sc sdScenario) synced(i int) bool { return i < len(sc.sync) && sc.sync[i] }
 
 func (sc sdScenario) firstSignal() syscall.Signal {
 	if sc.first == 0 {
@@ -97,6 +106,8 @@ type sdObs struct {
 	exitCode int
 	reqs     []sdReqObs
 	sigs     []string // the signals as sent: kind@actual offset (and whether the process was still there)
+	syncNote string   // how the synchronised completions were released
+	sigAt    []time.Duration // actual instants of the signals, relative to the planned instant of the first
 	err      string
 	log      string
 }
@@ -109,12 +120,66 @@ func sdExitStatus(ps *os.ProcessState) int {
 	return ps.ExitCode()
 }
 
+// requests held by the upstream until the driver releases them (key -> channel)
+var sdHolds sync.Map
+
+func sdHold(key string) chan struct{} {
+	ch, _ := sdHolds.LoadOrStore(key, make(chan struct{}))
+	return ch.(chan struct{})
+}
+
+// sdLogTap collects the process's output and reports the in-process instant of the listener close: the time stamp of the
+// log line written immediately before http.Server.Shutdown is called (arrival time of the line if it cannot be parsed).
+type sdLogTap struct {
+	mu     sync.Mutex
+	buf    bytes.Buffer
+	seen   bool
+	closed chan time.Time // capacity 1
+}
+
+func (t *sdLogTap) Write(p []byte) (int, error) {
+	now := time.Now()
+	t.mu.Lock()
+	defer t.mu.Unlock()
+	t.buf.Write(p)
+	if !t.seen {
+		all := t.buf.String()
+		if i := strings.Index(all, "server: starting graceful shutdown"); i >= 0 {
+			if e := strings.IndexByte(all[i:], '\n'); e >= 0 { // the whole line is there
+				t.seen = true
+				b := strings.LastIndexByte(all[:i], '\n') + 1
+				at := now
+				var m struct {
+					Time time.Time `json:"time"`
+				}
+				if json.Unmarshal([]byte(all[b:i+e]), &m) == nil && !m.Time.IsZero() && now.Sub(m.Time) >= 0 && now.Sub(m.Time) < 5*time.Second {
+					at = m.Time
+				}
+				t.closed <- at
+			}
+		}
+	}
+	return len(p), nil
+}
+
+func (t *sdLogTap) String() string {
+	t.mu.Lock()
+	defer t.mu.Unlock()
+	return t.buf.String()
+}
+
 func sdStartUpstream() (*http.Server, string, error) {
 	l, err := net.Listen("tcp", "127.0.0.1:0")
 	if err != nil {
 		return nil, "", err
 	}
 	srv := &http.Server{Handler: http.HandlerFunc(func(w http.ResponseWriter, r *http.Request) {
+		if key := r.URL.Query().Get("hold"); key != "" {
+			select {
+			case <-sdHold(key):
+			case <-time.After(60 * time.Second):
+			}
+		}
 		ms, _ := strconv.Atoi(r.URL.Query().Get("ms"))
 		time.Sleep(time.Duration(ms) * time.Millisecond)
 		w.Header().Set("Content-Type", "text/plain")
@@ -139,8 +204,8 @@ func sdRunScenario(bin, cwd, wk, upstream string, sc sdScenario) sdObs {
 	cmd := exec.Command(bin, args...)
 	cmd.Dir = cwd
 	cmd.Env = []string{"PATH=/usr/bin:/bin", "HOME=" + cwd}
-	var buf bytes.Buffer
-	cmd.Stdout, cmd.Stderr = &buf, &buf
+	buf := &sdLogTap{closed: make(chan time.Time, 1)}
+	cmd.Stdout, cmd.Stderr = buf, buf
 	if err := cmd.Start(); err != nil {
 		obs.err = err.Error()
 		return obs
@@ -188,7 +253,11 @@ func sdRunScenario(bin, cwd, wk, upstream string, sc sdScenario) sdObs {
 			tr := &http.Transport{DisableKeepAlives: true}
 			cl := &http.Client{Transport: tr, Timeout: 60 * time.Second}
 			o := sdReqObs{start: time.Since(S)}
-			resp, err := cl.Get(fmt.Sprintf("http://%s/slow?ms=%d&i=%d", bind, q.d.Milliseconds(), i))
+			target := fmt.Sprintf("http://%s/slow?ms=%d&i=%d", bind, q.d.Milliseconds(), i)
+			if sc.synced(i) {
+				target = fmt.Sprintf("http://%s/slow?ms=0&hold=%s-%d&i=%d", bind, bind, i, i)
+			}
+			resp, err := cl.Get(target)
 			if err != nil {
 				o.detail = err.Error()
 				var se syscall.Errno
@@ -211,10 +280,38 @@ func sdRunScenario(bin, cwd, wk, upstream string, sc sdScenario) sdObs {
 			obs.reqs[i] = o
 		}(i, q)
 	}
+	// synchronised completions: released at <close instant of the process> + (planned finish - W); if the process does not
+	// report its close instant by the planned finish, at the planned finish
+	relDone := make(chan struct{})
+	go func() {
+		defer close(relDone)
+		var closeAt time.Time
+		for i, q := range sc.reqs {
+			if !sc.synced(i) {
+				continue
+			}
+			planned := S.Add(q.a + q.d)
+			if closeAt.IsZero() {
+				select {
+				case closeAt = <-buf.closed:
+					obs.syncNote = fmt.Sprintf("close instant read from the log: %dms after the planned signal instant", closeAt.Sub(S).Milliseconds())
+				case <-time.After(time.Until(planned)):
+					obs.syncNote = "close instant not reported in time; released at the planned instant"
+				}
+			}
+			at := planned
+			if !closeAt.IsZero() {
+				at = closeAt.Add(q.a + q.d - sc.W)
+			}
+			time.Sleep(time.Until(at))
+			close(sdHold(fmt.Sprintf("%s-%d", bind, i)))
+		}
+	}()
 	time.Sleep(time.Until(S))
 	sent := time.Now()
 	cmd.Process.Signal(sc.firstSignal())
 	obs.sigs = append(obs.sigs, sdSigName(sc.firstSignal())+"@0ms")
+	obs.sigAt = append(obs.sigAt, sent.Sub(S))
 	// further signals at their planned instants (to this process only; after it has exited Signal fails and does nothing)
 	sigDone := make(chan struct{})
 	go func() {
@@ -222,6 +319,7 @@ func sdRunScenario(bin, cwd, wk, upstream string, sc sdScenario) sdObs {
 		for _, x := range sc.sigs {
 			time.Sleep(time.Until(S.Add(x.at)))
 			at := time.Since(sent)
+			obs.sigAt = append(obs.sigAt, time.Since(S))
 			gone := ""
 			if err := cmd.Process.Signal(x.kind); err != nil {
 				gone = "(process gone)"
@@ -246,6 +344,7 @@ func sdRunScenario(bin, cwd, wk, upstream string, sc sdScenario) sdObs {
 	}
 	wg.Wait()
 	<-sigDone
+	<-relDone
 	obs.log = scTail(buf.String())
 	return obs
 }
@@ -256,21 +355,31 @@ func sdScenarios(rng *mrand.Rand, tier string) []sdScenario {
 	type wg struct{ W, G time.Duration }
 	cfgs := []wg{{0, 1000 * ms}, {500 * ms, 2000 * ms}, {1000 * ms, 3000 * ms}}
 	// Finish instants of the request that is in flight when the signal arrives (absolute, relative to the signal).
-	// http.Server.Shutdown polls for idleness at close + 0,1,3,...,511 ms, then every 500 ms, each interval with up to
-	// 10 % jitter; every finish instant below is at least 150 ms away from a poll window and from the deadline, so that
-	// the outcome does not depend on the jitter:
-	//   okLate      noticed by a poll before the deadline (exit 0)
-	//   afterPoll   completes before the deadline but after the last poll before it (deadline fires: exit 1)
+	// http.Server.Shutdown polls for idleness at close + 0,1,3,...,511 ms, then every 500 ms, each interval lengthened by up
+	// to 10 % (poll windows [511,562.1], [1011,1112.1], [1511,1662.1], ... ms after the close); every finish instant below is
+	// at least 150 ms away from a poll window and from the deadline, and no outcome depends on the deadline beating a poll:
+	//   okLate      noticed by a poll well before the deadline (exit 0)
+	//   demo        the known finding: everything completes before the deadline but after the last poll before it (exit 1).
+	//               The Shutdown timeouts G - W of the settings above (1 s, 1.5 s, 2 s) all put the deadline 11 ms ahead of a
+	//               nominal poll instant, so with them that outcome is a race; it is demonstrated with G = W + 761 ms instead:
+	//               completion at close + 662 ms (synchronised to the process's own close instant), >= 99 ms after the latest
+	//               possible 10th poll (562.1 ms), 99 ms before the deadline; the 11th poll cannot come before 1011 ms,
+	//               250 ms after the deadline.
 	okLate := map[time.Duration]time.Duration{0: 300 * ms, 500 * ms: 1300 * ms, 1000 * ms: 2300 * ms}
-	afterPoll := map[time.Duration]time.Duration{0: 750 * ms, 500 * ms: 1800 * ms, 1000 * ms: 2850 * ms}
+	const demo = time.Duration(-1)
 	for _, c := range cfgs {
 		W, G := c.W, c.G
 		before := -250 * ms // request already in flight when the signal arrives
 		during := W / 2     // arrives in the wait-before period (only when W > 0)
 		after := W + 350*ms // arrives after the listener has been closed
-		fins := []time.Duration{-50 * ms, W + 50*ms, okLate[W], afterPoll[W], G + 1000*ms}
+		fins := []time.Duration{-50 * ms, W + 50*ms, okLate[W], demo, G + 1000*ms}
 		for li, F := range fins {
-			sc := sdScenario{name: fmt.Sprintf("W=%s G=%s in-flight request finishing at %s", W, G, F), W: W, G: G}
+			G := G
+			var sync []bool
+			if F == demo {
+				G, F, sync = W+761*ms, W+662*ms, []bool{true}
+			}
+			sc := sdScenario{name: fmt.Sprintf("W=%s G=%s in-flight request finishing at %s", W, G, F), W: W, G: G, sync: sync}
 			sc.reqs = append(sc.reqs, sdReq{before, F - before})
 			if W > 0 {
 				d := 200 * ms
@@ -294,7 +403,7 @@ func sdScenarios(rng *mrand.Rand, tier string) []sdScenario {
 			c := cfgs[rng.Intn(len(cfgs))]
 			sc := sdScenario{name: fmt.Sprintf("random #%d W=%s G=%s", k, c.W, c.G), W: c.W, G: c.G}
 			n := 1 + rng.Intn(5)
-			for j := 0; j < n; j++ {
+			for j, tries := 0, 0; j < n && tries < 40; j, tries = j+1, tries+1 {
 				// arrival at least 300 ms away from the close instant; finish at least 350 ms away from the deadline
 				var a time.Duration
 				if rng.Intn(3) == 0 || c.W < 700*ms {
@@ -320,6 +429,12 @@ func sdScenarios(rng *mrand.Rand, tier string) []sdScenario {
 				fin = sdAvoidPolls(fin, sc.W, sc.G)
 				if fin < a+20*ms {
 					continue // would have to finish inside a poll window: leave the request out
+				}
+				// keep the request only if no outcome of the scenario then hinges on two instants that are too close
+				// (same rule as Model/Shutdown.v:sd_robust, which judges the scenario in the comparison); else draw again
+				if !sdRobust(sc.W, sc.G, append(append([]sdReq(nil), sc.reqs...), sdReq{a, fin - a}), nil) {
+					j--
+					continue
 				}
 				sc.reqs = append(sc.reqs, sdReq{a, fin - a})
 			}
@@ -414,6 +529,76 @@ func sdSignalScenarios() []sdScenario {
 	out = append(out, sdScenario{name: "control: W=1s G=3s SIGKILL at 400ms; in-flight request finishing at 2.3s", W: 1000 * ms, G: 3000 * ms,
 		sigs: []sdSig{{400 * ms, syscall.SIGKILL}}, reqs: []sdReq{{-250 * ms, 2550 * ms}, {700 * ms, 200 * ms}}})
 	return out
+}
+
+// sdRobust: Model/Shutdown.v:sd_robust, used to GENERATE scenarios only (the comparison uses the model's verdict): no
+// observable depends on the order of two instants closer than 150 ms (planned instant against close / poll window /
+// deadline; 90 ms for a completion synchronised to the process's close instant) or, for the deadline against the next
+// possible poll, 250 ms.
+func sdRobust(W, G time.Duration, reqs []sdReq, sync []bool) bool {
+	ms := time.Millisecond
+	mPlan, mSync, mDeadline := 150*ms, 90*ms, 250*ms
+	margin := func(i int) time.Duration {
+		if i < len(sync) && sync[i] {
+			return mSync
+		}
+		return mPlan
+	}
+	c := W
+	if c < 0 {
+		c = 0
+	}
+	T := c + G - W
+	abs := func(d time.Duration) time.Duration {
+		if d < 0 {
+			return -d
+		}
+		return d
+	}
+	var acc []int
+	stuck := false
+	for i, q := range reqs {
+		if abs(q.a-c) < mPlan {
+			return false
+		}
+		if q.a < c {
+			acc = append(acc, i)
+			if abs(q.a+q.d-T) < margin(i) {
+				return false
+			}
+			if q.a+q.d > T {
+				stuck = true
+			}
+		}
+	}
+	if stuck {
+		return true
+	}
+	offs := []time.Duration{0, 1 * ms, 3 * ms, 7 * ms, 15 * ms, 31 * ms, 63 * ms, 127 * ms, 255 * ms, 511 * ms}
+	for j := time.Duration(1); j <= (T-c)/(500*ms)+2; j++ {
+		offs = append(offs, 511*ms+500*ms*j)
+	}
+	ok0, ok1 := false, true
+	for _, p := range offs {
+		lo, hi := c+p, c+p+p/10
+		after, busy := true, false
+		for _, i := range acc {
+			f := reqs[i].a + reqs[i].d
+			if f+margin(i) > lo {
+				after = false
+			}
+			if hi+margin(i) <= f {
+				busy = true
+			}
+		}
+		if after && hi+mPlan <= T {
+			ok0 = true
+		}
+		if !busy && lo < T+mDeadline {
+			ok1 = false
+		}
+	}
+	return ok0 || ok1
 }
 
 // sdAvoidPolls moves a finish instant out of the jitter windows of Shutdown's polls (offsets 511, 1011, 1511, ... ms
@@ -527,6 +712,10 @@ func runShutdown(args []string) error {
 		for _, x := range sc.sigs {
 			in = append(in, strconv.Itoa(int(x.kind)))
 		}
+		in = append(in, "|")
+		for i := range sc.reqs {
+			in = append(in, scB01(sc.synced(i)))
+		}
 		fmt.Fprintln(fin, strings.Join(in, " "))
 		if o.refused {
 			fmt.Fprintf(fimpl, "R %d\n", o.refClass)
@@ -545,13 +734,28 @@ func runShutdown(args []string) error {
 		for _, r := range o.reqs {
 			im = append(im, strconv.FormatInt(int64(r.end), 10))
 		}
+		im = append(im, "|")
+		for _, r := range o.reqs {
+			im = append(im, strconv.FormatInt(int64(r.start), 10))
+		}
+		im = append(im, "|")
+		for _, t := range o.sigAt {
+			im = append(im, strconv.FormatInt(int64(t), 10))
+		}
 		fmt.Fprintln(fimpl, strings.Join(im, " "))
 		var ds []string
 		for _, r := range o.reqs {
 			ds = append(ds, fmt.Sprintf("%s@%dms..%dms %s", r.outcome, r.start.Milliseconds(), r.end.Milliseconds(), r.detail))
 		}
-		fmt.Fprintf(fnotes, "%s\t%s ; signals sent: %s\t%s\n", sc.name, strings.Join(ds, " ; "), strings.Join(o.sigs, " "), strings.ReplaceAll(o.err, "\n", " "))
+		fmt.Fprintf(fnotes, "%s\t%s ; signals sent: %s\t%s\n", sc.name, strings.Join(ds, " ; "), strings.Join(o.sigs, " ")+sdIf(o.syncNote != "", " ; "+o.syncNote), strings.ReplaceAll(o.err, "\n", " "))
 	}
 	fmt.Fprintf(os.Stderr, "shutdown: %d scenarios in %.1fs\n", len(scs), time.Since(t0).Seconds())
 	return nil
+}
+
+func sdIf(b bool, s string) string {
+	if b {
+		return s
+	}
+	return ""
 }
